@@ -114,9 +114,13 @@ def build(case, bars):
         from demeter.uniswap.helper import get_price_from_data
         pool = UniV3Pool(usdc, eth, 0.05, usdc)
         um = UniLpMarket(MarketInfo("uni"), pool)
-        df = pd.DataFrame([dict(netAmount0=b["n0"], netAmount1=b["n1"], closeTick=b["close"], openTick=b["open"], lowestTick=b["lo"],
-                                highestTick=b["hi"], inAmount0=b["in0"], inAmount1=b["in1"], currentLiquidity=Decimal(b["liq"])) for b in bars],
-                          index=index)
+        # amounts are Decimal objects, as load_uni_v3_data's converters make them (plain ints beyond 2**63 would give the column a
+        # data-dependent integer dtype whose resampled sum wraps around: a frame the loader never produces)
+        df = pd.DataFrame([dict(netAmount0=Decimal(b["n0"]), netAmount1=Decimal(b["n1"]), closeTick=b["close"], openTick=b["open"], lowestTick=b["lo"],
+                                highestTick=b["hi"], inAmount0=Decimal(b["in0"]), inAmount1=Decimal(b["in1"]), currentLiquidity=Decimal(b["liq"]))
+                           for b in bars], index=index)
+        for c in ("netAmount0", "netAmount1", "inAmount0", "inAmount1", "currentLiquidity"):
+            df[c] = df[c].astype(object)
         um.add_statistic_column(df)
         um.data = df
         if kind == "uni+deribit":
